@@ -110,8 +110,8 @@ def why_clock(hi, mi, tsi):
 
 # ------------------------------------------------------------------ C05
 
-YEARS = [int(v) for v in os.environ["VQ_YEARS"].split(",")] if os.environ.get("VQ_YEARS") else ([1990, 2000, 2016, 2029] if WIDE else [1990, 2000, 2029])
-DAYS = list(range(1, 32)) if WIDE else [1, 12, 29, 31]
+YEARS = [int(v) for v in os.environ["VQ_YEARS"].split(",")] if os.environ.get("VQ_YEARS") else ([1990, 2000, 2016, 2029] if WIDE else [2000, 2029])
+DAYS = list(range(1, 32)) if WIDE else [12, 29, 31]
 MONTHS = list(range(1, 13)) if WIDE else [2, 3, 12]
 NMO = len(MONTHS)
 NY, ND = len(YEARS), len(DAYS)
@@ -133,19 +133,26 @@ def date_notations(d, m, y):
     return out
 
 
+def date_clock_forms(n, h, mi):
+    return [n + " %d:%02d" % (h, mi), n + " at %d:%02d" % (h, mi)]
+
+
 def date_check(d, m, y, h, mi):
     from vq.spec.cal import mdays
     if d > mdays(y, m):
         return True, "not a calendar date"
     bad = []
-    for tsi, ts in enumerate(TSS):
+    from datetime import timedelta
+    # the fixed reference times plus one a few hours before the written instant
+    for tsi, ts in enumerate(TSS[:2] + [datetime(y, m, d, h, mi) - timedelta(hours=10)]):
         for n in date_notations(d, m, y):
             k = _key(_p(n, ts))
             if k != (y, m, d, None, None):
                 bad.append((n, ts.isoformat(), k))
-            k2 = _key(_p(n + " %d:%02d" % (h, mi), ts))
-            if k2 != (y, m, d, h, mi):
-                bad.append((n + " %d:%02d" % (h, mi), ts.isoformat(), k2))
+            for form in date_clock_forms(n, h, mi):
+                k2 = _key(_p(form, ts))
+                if k2 != (y, m, d, h, mi):
+                    bad.append((form, ts.isoformat(), k2))
     return (not bad), "notations of %04d-%02d-%02d: %r" % (y, m, d, bad[:4])
 
 
